@@ -1,5 +1,11 @@
 import BoltonsVerif.C01.Proofs
 import BoltonsVerif.C01.ConcreteProofs
+import BoltonsVerif.C01.OwnProofs
+import BoltonsVerif.C01.OwnCompound
+import BoltonsVerif.C01.Natural
+import BoltonsVerif.C01.KeyNatural
+import BoltonsVerif.C01.Iter
+import BoltonsVerif.Generated.C01_Effects
 /-
 C01 — property theorems for the OrderedMultiDict model (statements, short derivations from
 `Proofs.lean`, non-vacuity examples).
@@ -333,6 +339,65 @@ theorem aborted_argument (st : HState K V) (k : K) (vs : List V) (l : List (K ×
   · simp [hstep, OMD.update, OMD.setAll, HArg.resolve]
   · simp [hstep, OMD.updateExtend, OMD.addAll, HState.withS, HArg.resolve]
 
+/-- a mapping argument whose `keys()` / `__getitem__` raises after delivering the items `l`: `update` has
+    then assigned exactly `l` (as if `update(dict(l))` had been called); a call that raises on its
+    first look at the argument (unhashable key, not iterable, too many arguments) has changed nothing.
+    Malformed ITEMS (not pairs, unhashable keys) in an iterable of pairs raise at the unpacking / at
+    the `seen` test, before the item is looked at further: they are `updateAbort` / `updateExtendAbort`
+    with the well-formed prefix. -/
+theorem aborted_mapping_argument (st : HState K V) (l : List (K × V)) :
+    hstep st (.updateMapAbort l) = ((hstep st (.update (.mapping l) [])).1, .abort) ∧
+    hstep st .rejected = (st, .abort) := by
+  refine ⟨?_, rfl⟩
+  simp [hstep, OMD.update, OMD.setAll, HArg.resolve]
+
+/-- whatever an argument does half way, the dictionary is consistent afterwards and still the plain
+    list of pairs (instances of `inv_step` / `refines_step`, spelled out for the aborting operations) -/
+theorem aborted_argument_consistent (st : HState K V) (hi : HInv st) (k : K) (vs : List V) (l : List (K × V)) :
+    ∀ op ∈ [HOp.addlistAbort k vs, .updateAbort l, .updateExtendAbort l, .updateMapAbort l, .rejected],
+      (hstep st op).2 = .abort ∧ HInv (hstep st op).1 ∧ ReadsAgree (hstep st op).1.s ∧
+        absH (hstep st op).1 = (Spec.hstep (absH st) op).1 := by
+  intro op hop
+  refine ⟨?_, inv_step st hi op, reads_agree _ (inv_step st hi op).s, (refines_step st hi op).1⟩
+  simp only [List.mem_cons, List.not_mem_nil, or_false] at hop
+  rcases hop with rfl | rfl | rfl | rfl | rfl <;> rfl
+
+/-! ## `fromkeys` and the view objects -/
+
+/-- `fromkeys(keys, default)` is a consistent dictionary with one pair per listed key, in order
+    (a key listed `n` times holds `default` `n` times); its `keys()` are the listed keys without repeats -/
+theorem fromkeys_spec (ks : List K) (d : V) :
+    Inv (OMD.fromkeys ks d) ∧ (OMD.fromkeys ks d).cells = ks.map (fun k => (k, d)) ∧
+    (OMD.fromkeys ks d).keys = dedup ks ∧
+    ∀ k, (OMD.fromkeys ks d).getlist k = List.replicate (ks.count k) d := by
+  have h := fromPairs_spec (ks.map fun k => (k, d))
+  refine ⟨h.1, h.2, ?_, fun k => ?_⟩
+  · show dedup ((OMD.fromPairs (ks.map fun k => (k, d))).cells.map (·.1)) = dedup ks
+    rw [h.2, List.map_map]; congr 1; simp [Function.comp_def]
+  · show (OMD.fromPairs (ks.map fun k => (k, d))).getlist k = _
+    rw [getlist_spec h.1, h.2, valsOf_mapConst]
+
+/-- the view objects (`viewkeys()` / `viewvalues()` / `viewitems()`) hold a reference to the
+    dictionary; iterating them, `len` and `in` are the readers of the dictionary's CURRENT state, so
+    they equal the reads of the plain list as it is now, and never raise -/
+theorem views_read_current_state [DecidableEq V] (s : OMD K V) (h : Inv s) :
+    s.viewKeysIter = Spec.keys s.cells ∧ s.viewLen = Spec.len s.cells ∧
+    (∀ k, s.viewKeysContains k = Spec.has k s.cells) ∧
+    s.viewValuesIter = .ok (Spec.values s.cells) ∧ s.viewItemsIter = .ok (Spec.items s.cells) ∧
+    (∀ k v, s.viewItemsContains k v = .ok (decide (Spec.last k s.cells = some v))) ∧
+    (∀ v, s.viewValuesContains v = .ok (decide (v ∈ Spec.values s.cells))) :=
+  ⟨rfl, len_spec h, contains_spec h, viewValuesIter_spec h, items_spec h, viewItemsContains_spec h,
+   fun v => by simp [OMD.viewValuesContains, viewValuesIter_spec h]⟩
+
+/-- … after every prefix of every history (a view taken at any time shows the state of the moment
+    it is used) -/
+theorem views_live_history [DecidableEq V] (ops : List (HOp K V)) (r : HState K V × Out K V)
+    (hr : r ∈ hrun (HState.init : HState K V) ops) :
+    r.1.s.viewItemsIter = .ok (Spec.items r.1.s.cells) ∧ r.1.s.viewKeysIter = Spec.keys r.1.s.cells ∧
+    r.1.s.viewValuesIter = .ok (Spec.values r.1.s.cells) :=
+  have h := views_read_current_state r.1.s (inv_history ops r hr).s
+  ⟨h.2.2.2.2.1, h.1, h.2.2.2.1⟩
+
 /-! ## copies -/
 
 /-- `copy()`, `copy.copy`, `copy.deepcopy` and a pickle round trip (all: rebuild from
@@ -356,6 +421,25 @@ theorem eq_mapping_iff [DecidableEq V] (s : OMD K V) (h : Inv s) (m : List (K ×
     (∃ b, s.eqMapping m = .ok b ∧ (b = true ↔ ∀ k, dget k m = Spec.last k s.cells)) :=
   ⟨_, eqMapping_spec h m, spec_eqMapping_iff s.cells m hm⟩
 
+/-- the fix of round 3 (`selfk not in other or other[selfk] != …`) changed nothing for mappings without
+    `__missing__`: there the old loop (`other[selfk]` alone) and the new one agree on every input; with a
+    `__missing__` answer the old loop could say True for a mapping that lacks a key (the example below) -/
+theorem eq_mapping_fix_conservative [DecidableEq V] (s : OMD K V) (m : List (K × V)) :
+    s.eqMappingOld m none = s.eqMapping m := by
+  unfold OMD.eqMappingOld OMD.eqMapping
+  split
+  · rfl
+  · generalize s.keys = ks
+    induction ks with
+    | nil => rfl
+    | cons k r ih =>
+      simp only [OMD.eqMapLoopOld, OMD.eqMapLoop]
+      cases dget k m with
+      | none => rfl
+      | some mv =>
+        simp only [Option.orElse]
+        rw [ih]
+
 /-- `omd != other` is the negation of `omd == other`, for OMDs and for mappings -/
 theorem ne_iff [DecidableEq V] (s t : OMD K V) (hs : Inv s) (ht : Inv t) (m : List (K × V)) :
     (s.neOMD t = true ↔ s.cells ≠ t.cells) ∧
@@ -373,6 +457,13 @@ theorem eq_todict_self [DecidableEq V] (s : OMD K V) (h : Inv s) :
   congr 1
   rw [spec_eqMapping_iff s.cells _ (by rw [dkeys, items_fst]; exact nodup_dedup _)]
   exact fun k => dget_items s.cells k
+
+/-- `repr(omd)` is the class name applied to the list display of the pairs, in order, and that list
+    handed to the constructor gives a dictionary equal to the original (`eval(repr(omd)) == omd` whenever the
+    `repr` of the keys and values evaluates back to them) -/
+theorem repr_spec [DecidableEq V] (s : OMD K V) (h : Inv s) (cn : String) (rk : K → String) (rv : V → String) :
+    s.reprText cn rk rv = Spec.reprText cn rk rv s.cells ∧ (OMD.fromPairs s.itemsM).eqOMD s = true :=
+  ⟨rfl, (eq_omd_iff _ s (fromPairs_spec _).1 h).mpr (fromPairs_spec _).2⟩
 
 /-! ## derived dictionaries -/
 
@@ -442,6 +533,206 @@ theorem sortedvalues_sorted (s : OMD K V) (h : Inv s) (le : V → V → Bool) (r
   refine this.imp ?_
   intro a b hab
   cases rev <;> simpa [flipIf] using hab
+
+
+/-! ## values are opaque; alias forms of keys -/
+
+/-- no operation looks inside a value: relabelling the values of a whole history by ANY function `f`
+    (values handed in, values inside OMD / mapping / pair arguments) relabels every pair list reached
+    and every return value by `f` and changes nothing else - same key order, same lengths, same
+    exceptions, after every prefix -/
+theorem values_are_opaque {W : Type} (f : V → W) (ops : List (HOp K V)) :
+    (hrun (HState.init : HState K W) (ops.map (HOp.mapV f))).map (fun r => (absH r.1, r.2)) =
+      (hrun (HState.init : HState K V) ops).map (fun r => (mapSt f (absH r.1), r.2.mapV f)) := by
+  rw [refines_history]
+  have h := spec_hrun_natural f ops ⟨[], []⟩
+  have e : mapSt f (⟨[], []⟩ : Spec.HState K V) = ⟨[], []⟩ := rfl
+  rw [e] at h
+  rw [h, ← refines_history, List.map_map]
+  rfl
+
+/-- alias forms of keys (`1`, `1.0`, `True` are ONE key): let every pair also carry the key OBJECT it
+    was inserted with (`V := KO × V`).  Forgetting those objects turns the history into the history
+    over `==`-classes of keys that the correspondence runs: which alias object travels with a pair
+    never influences a pair list, a key order, a length, a return value or an exception -/
+theorem alias_objects_do_not_matter {KO : Type} (ops : List (HOp K (KO × V))) :
+    (hrun (HState.init : HState K V) (ops.map (HOp.mapV Prod.snd))).map (fun r => (absH r.1, r.2)) =
+      (hrun (HState.init : HState K (KO × V)) ops).map (fun r => (mapSt Prod.snd (absH r.1), r.2.mapV Prod.snd)) :=
+  values_are_opaque Prod.snd ops
+
+/-- keys are only ever compared for equality: renaming the keys of a whole history by any INJECTIVE
+    function renames every pair list reached and every return value and changes nothing else (no
+    operation depends on an order, a hash or anything else about a key than which keys it equals) -/
+theorem keys_are_only_compared {K' : Type} [DecidableEq K'] (g : K → K') (hg : Function.Injective g)
+    (ops : List (HOp K V)) :
+    (hrun (HState.init : HState K' V) (ops.map (HOp.mapK g))).map (fun r => (absH r.1, r.2)) =
+      (hrun (HState.init : HState K V) ops).map (fun r => (mapStK g (absH r.1), r.2.mapK g)) := by
+  rw [refines_history]
+  have h := spec_hrun_key_natural g hg ops ⟨[], []⟩
+  have e : mapStK g (⟨[], []⟩ : Spec.HState K V) = ⟨[], []⟩ := rfl
+  rw [e] at h
+  rw [h, ← refines_history, List.map_map]
+  rfl
+
+/-! ## generators paused while the dictionary changes (pointer level) -/
+
+/-- a generator of `iteritems(multi=True)` / `iterkeys(multi=True)` / `itervalues(multi=True)` that is
+    paused at a cell which is (still) linked goes on with exactly the cells that come after that cell
+    in the list AS IT IS NOW - whatever happened to the dictionary since the generator was made
+    (every public operation keeps `PInv`: `index_exact_history`) -/
+theorem paused_generator_continues (l : PL K V) (h : PInv l) (A B : List Nat) (c : Nat)
+    (e : l.ids = A ++ c :: B) : l.rest c = c :: B := rest_of_linked (e ▸ h.shape)
+
+/-- … so a pair added meanwhile is still visited, at the end -/
+theorem paused_generator_sees_insert (l : PL K V) (h : PInv l) (A B : List Nat) (c : Nat)
+    (e : l.ids = A ++ c :: B) (k : K) (v : V) : (l.insert k v).rest c = c :: B ++ [l.fresh] := by
+  have e' : (l.insert k v).ids = A ++ c :: (B ++ [l.fresh]) := by rw [ids_insert h, e]; simp
+  exact paused_generator_continues _ (pinsert_spec h k v).1 A (B ++ [l.fresh]) c e'
+
+/-- … and when the very cell it is paused at is unlinked (`cell[PREV][NEXT], cell[NEXT][PREV] =
+    cell[NEXT], cell[PREV]` leaves the cell's own fields alone), it yields that stale pair once more and
+    then goes on with the cells that came after it -/
+theorem paused_generator_survives_unlink (n p : Ptrs) (A B : List Nat) (c : Nat) (h : Shape n p (A ++ c :: B))
+    (fuel : Nat) (hl : B.length < fuel) : walk (unlinkP c (n, p)).1 (fuel + 1) c = c :: B :=
+  walk_from_unlinked h fuel (by omega)
+
+/-! ## list objects: what the dictionary keeps and what the caller holds -/
+
+/-- in every state reached by any history of operations that create, store or hand out list objects
+    (`add`, `addlist` with a list of the caller's or with an iterator, `[]=`, `del`, `popall`, `poplast`,
+    `getlist`, `todict(multi=True)`, `clear`, and the caller making lists and writing to any list it
+    holds): no list object is stored under two keys and none of the stored ones is in the caller's hands -/
+theorem own_separation_history (ops : List (OwnOp K V)) : Sep (ownRun (Own.empty : Own K V) ops) :=
+  ownRun_sep _ sep_empty ops
+
+/-- each of these operations changes the dereferenced storage exactly as the model's `vals` does, and
+    reads and the caller's own doings do not change it at all -/
+theorem own_step_refines (o : Own K V) (h : Sep o) (op : OwnOp K V) :
+    Sep (ownStep o op) ∧ (ownStep o op).vals = valsStep o o.vals op := ownStep_spec h op
+
+/-- `valsStep` IS the `vals` component of the operations of `Model.lean` -/
+theorem own_vals_is_model_vals (o : Own K V) (s : OMD K V) (h : Inv s) (k : K) (v : V) (vs : List V) (d : Bool) :
+    valsStep o s.vals (.add k v) = (s.add k v).vals ∧
+    valsStep o s.vals (.addlistVals k vs) = (s.addlist k vs).vals ∧
+    valsStep o s.vals (.setitem k v) = (s.setitem k v).vals ∧
+    valsStep o s.vals (.delKey k) = (s.delKey k).vals ∧
+    valsStep o s.vals (.popall k) = (s.popall k d).1.vals ∧
+    valsStep o s.vals (.poplast k) = (s.poplastKey k d).1.vals ∧
+    valsStep o s.vals .clear = (OMD.empty : OMD K V).vals := by
+  refine ⟨rfl, ?_, rfl, rfl, ?_, ?_, rfl⟩
+  · simp only [valsStep, OMD.addlist]; split <;> rfl
+  · simp only [valsStep, OMD.popall]
+    cases hk : dget k s.vals with
+    | none => exact ddel_absent k s.vals hk
+    | some vs => rfl
+  · simp only [valsStep, OMD.poplastKey]
+    have hh := h.dhas_eq k
+    cases hk : dget k s.vals with
+    | none =>
+      have : s.cells.any (isK k) = false := by
+        have : dhas k s.vals = false := by simp [dhas, hk]
+        rw [hh] at this; exact this
+      simp [this]
+    | some vs =>
+      have hne : vs ≠ [] := ((h.dget_some k vs).mp hk).2
+      have : s.cells.any (isK k) = true := by
+        have : dhas k s.vals = true := by simp [dhas, hk]
+        rw [hh] at this; exact this
+      obtain ⟨x, hx⟩ := getLast?_of_ne hne
+      simp only [this, ↓reduceIte, hx]
+
+/-- the compound mutators reach the dict storage only through those primitive statements: for `update` / `|=`
+    (with self, another OMD, a mapping, any iterable of pairs, keyword arguments), `update_extend` (hence the
+    constructor, `copy`, the copy module, pickle), `setdefault` and `pop` (hence `popitem`), running the listed
+    primitives on the ownership layer from any separated state that reads as the model's storage gives a
+    separated state that reads as the model's storage after the mutator: no public mutator can make the
+    dictionary share a list object with its caller, or two keys share one -/
+theorem compound_mutators_keep_separation (o : Own K V) (h : Sep o) (s : OMD K V) (hv : o.vals = s.vals)
+    (E : Arg K V) (F : List (K × V)) (k : K) (v : V) (d : Bool) :
+    (Sep (ownRun o (compileUpdate s E F)) ∧ (ownRun o (compileUpdate s E F)).vals = (s.update E F).vals) ∧
+    (Sep (ownRun o (compileUpdateExtend s E F)) ∧
+      (ownRun o (compileUpdateExtend s E F)).vals = (s.updateExtend E F).1.vals) ∧
+    (Sep (ownRun o (compileSetdefault s k v)) ∧ (ownRun o (compileSetdefault s k v)).vals = (s.setdefault k v).1.vals) ∧
+    (Sep (ownRun o [.popall k]) ∧ (ownRun o [.popall k]).vals = (s.pop k d).1.vals) := by
+  refine ⟨?_, ?_, ?_, ?_⟩
+  · have := ownRun_pure _ o h (compileUpdate_pure s E F)
+    exact ⟨this.1, by rw [this.2, hv, update_vals]⟩
+  · have := ownRun_pure _ o h (compileUpdateExtend_pure s E F)
+    exact ⟨this.1, by rw [this.2, hv, updateExtend_vals]⟩
+  · have := ownRun_pure (compileSetdefault s k v) o h (by
+      intro op hop; unfold compileSetdefault at hop; split at hop
+      · simp at hop
+      · simp only [List.mem_singleton] at hop; subst hop; rfl)
+    exact ⟨this.1, by rw [this.2, hv, setdefault_vals]⟩
+  · have := ownRun_pure [OwnOp.popall k] o h (by intro op hop; simp only [List.mem_singleton] at hop; subst hop; rfl)
+    exact ⟨this.1, by rw [this.2, hv, pop_vals]⟩
+
+/-- a caller that writes whatever it likes into any list object it holds - one it handed to `addlist`,
+    one it got from `getlist` / `todict(multi=True)` / `popall` - cannot change what the dictionary reads -/
+theorem caller_writes_are_invisible (o : Own K V) (h : Sep o) (i : Nat) (vs : List V) :
+    (o.callerWrite i vs).vals = o.vals ∧ Sep (o.callerWrite i vs) :=
+  ⟨(callerWrite_spec h i vs).2, (callerWrite_spec h i vs).1⟩
+
+/-- `getlist(k)` gives the caller a NEW list object holding the key's values; `popall(k)` gives it the
+    stored object itself, which the dictionary no longer refers to; `addlist(k, a)` takes the contents
+    of the caller's list `a` and not the object -/
+theorem handed_out_lists_are_the_callers (o : Own K V) (h : Sep o) (k : K) :
+    ((o.getlist k).1.look (o.getlist k).2 = (dget k o.vals).getD [] ∧ (o.getlist k).2 ∉ (o.getlist k).1.ids) ∧
+    (∀ i, (o.popall k).2 = some i → o.look i = (dget k o.vals).getD [] ∧ i ∉ (o.popall k).1.ids) ∧
+    (∀ a ∈ o.caller, a ∉ (o.addlistFrom k a).ids ∧ (o.addlistFrom k a).caller = o.caller) := by
+  refine ⟨⟨(getlist_spec' h k).2.2.1, (getlist_spec' h k).2.2.2.1⟩, fun i hi => ?_, fun a ha => ?_⟩
+  · have := (popall_spec' h k).2.2 i hi; exact ⟨this.1, this.2.1⟩
+  · obtain ⟨s1, _, c1⟩ := addlistFrom_spec h k a
+    exact ⟨fun hi => s1.apart a hi (by rw [c1]; exact ha), c1⟩
+
+/-! ## the source, as it is now: which method writes which structure
+
+`Generated.C01.methods` is regenerated on every run from the current source of BOTH copies of the class
+(`boltons/dictutils.py`, `boltons/urlutils.py`) by a static, transitive effect analysis (`regen` in
+`harness/bv/props/c01.py`): for every public method, may it write the dict's own storage (`dictW`), may
+it write the linked list or its cell index (`llW`), may it write THROUGH one of its arguments (`argW`), may it store an
+argument object itself as a per-key value list (`keepsArg`).  The theorems below are re-proved over the
+regenerated table, so they are proof obligations about the code as it is today. -/
+
+/-- the operations the model has a state-changing `HOp` for (`__init__` = `new`, `__setstate__` =
+    the copy module / pickle, `__ior__` = `update`) -/
+def modelledMutators : List String :=
+  ["__init__", "__setstate__", "add", "addlist", "__setitem__", "__delitem__", "update", "update_extend",
+   "__ior__", "setdefault", "pop", "popall", "poplast", "popitem", "clear"]
+
+/-- the methods the model treats as pure functions of the state (`Model.lean`, "readers", equality,
+    derived containers, copies) -/
+def modelledReaders : List String :=
+  ["__getstate__", "__reduce_ex__", "get", "getlist", "copy", "__getitem__", "__eq__", "__ne__", "iteritems",
+   "iterkeys", "itervalues", "todict", "sorted", "sortedvalues", "inverted", "counts", "keys", "values", "items",
+   "__iter__", "__reversed__", "__repr__", "fromkeys", "viewkeys", "viewvalues", "viewitems"]
+
+/-- "every mutator updates both structures together": in the current source of both copies no public
+    method may write the dict's storage without also writing the linked list / cell index, or the
+    other way round -/
+theorem source_mutators_write_both_structures :
+    ∀ m ∈ Generated.C01.methods, m.dictW = m.llW := by decide
+
+/-- every operation the model has a state-changing step for is defined by the class itself, in both
+    copies, and writes both structures; none of dict's own mutators is inherited unchanged (an
+    inherited `popitem` / `setdefault` / … would change the dict behind the linked list's back) -/
+theorem source_modelled_mutators_present :
+    (∀ f ∈ ["dictutils", "urlutils"], ∀ n ∈ modelledMutators,
+      (⟨f, n, true, true, false, false⟩ : Generated.C01.Method) ∈ Generated.C01.methods) ∧
+    Generated.C01.inheritedMutators = [] := by decide
+
+/-- the readers, which the model takes to be pure functions of the state, write neither structure in
+    the current source (a reader that re-ordered a value list or re-linked cells would make "every
+    read" depend on the reads made before) -/
+theorem source_readers_write_nothing :
+    ∀ m ∈ Generated.C01.methods, m.name ∈ modelledReaders → m.dictW = false ∧ m.llW = false := by decide
+
+/-- arguments are only read and never kept: in the current source no public method may write through an
+    object the caller passed in (the model hands `update` / `update_extend` / `==` / the constructor their
+    OMD, mapping and iterable arguments by value), and none may store an argument object itself as a
+    per-key value list (the `Sep` invariant of the ownership layer: `addlist` copies, `[]=` wraps) -/
+theorem source_arguments_only_read :
+    ∀ m ∈ Generated.C01.methods, m.argW = false ∧ m.keepsArg = false := by decide
 
 /-! ## non-vacuity: concrete histories and states the theorems speak about -/
 
@@ -546,5 +837,63 @@ example : ((OMD.fromPairs [(1, 2), (0, 3), (1, 0)] : OMD Nat Nat).sorted
     (fun a b => decide (a.2 ≤ b.2)) true).cells = [(0, 3), (1, 2), (1, 0)] := by decide
 /-- a state that violates `Inv` (what `addlist(k, iterator)` used to produce): its reads disagree -/
 example : (⟨[(0, [])], [(0, 1), (0, 2)]⟩ : OMD Nat Nat).items = .error .indexError := rfl
+
+/-- the regenerated table is not empty and has both kinds of rows, in both copies -/
+example : (⟨"dictutils", "add", true, true, false, false⟩ : Generated.C01.Method) ∈ Generated.C01.methods ∧
+    (⟨"urlutils", "__reversed__", false, false, false, false⟩ : Generated.C01.Method) ∈ Generated.C01.methods := by decide
+/-- what the first theorem excludes: a method that deletes from the dict and leaves the cells linked -/
+example : ¬ (∀ m ∈ [(⟨"dictutils", "__delitem__", true, false, false, false⟩ : Generated.C01.Method)], m.dictW = m.llW) := by decide
+
+/-- a mapping that raises half way, a rejected call, `fromkeys` with a repeated key, the views of an interleaved state -/
+example : ((hrun HState.init [.add 0 1, .add 1 2, .add 0 3, .updateMapAbort [(1, 5), (2, 6)], .rejected]).map
+    (fun r => (r.1.s.cells, r.2))) =
+    [([(0, 1)], .unit), ([(0, 1), (1, 2)], .unit), ([(0, 1), (1, 2), (0, 3)], .unit),
+     ([(0, 1), (0, 3), (1, 5), (2, 6)], .abort), ([(0, 1), (0, 3), (1, 5), (2, 6)], .abort)] := by decide
+example : (OMD.fromkeys [1, 2, 1] 7 : OMD Nat Nat).cells = [(1, 7), (2, 7), (1, 7)] ∧
+    (OMD.fromkeys [1, 2, 1] 7 : OMD Nat Nat).getlist 1 = [7, 7] := by decide
+example : (OMD.fromPairs [(0, 1), (1, 2), (0, 3)] : OMD Nat Nat).viewItemsIter = .ok [(0, 3), (1, 2)] ∧
+    (OMD.fromPairs [(0, 1), (1, 2), (0, 3)] : OMD Nat Nat).viewItemsContains 0 1 = .ok false ∧
+    (OMD.fromPairs [(0, 1), (1, 2), (0, 3)] : OMD Nat Nat).viewValuesContains 3 = .ok true := ⟨rfl, rfl, rfl⟩
+
+/-- the caller appends to the list it handed to `addlist` and to the list `getlist` returned: the storage is as before -/
+example : let o0 : Own Nat Nat := (Own.empty.callerNew [1, 2]).1
+    let o1 := ownRun o0 [.addlistFrom 7 0, .add 7 3, .getlist 7]
+    (o1.vals = [(7, [1, 2, 3])] ∧ o1.caller = [3, 0]) ∧
+    (ownRun o1 [.callerWrite 0 [9], .callerWrite 3 [], .callerWrite 1 [8]]).vals = [(7, [1, 2, 3])] := by decide
+/-- what seeded defect C01-10 amounts to (the dict adopting the caller's list object 0): `Sep` is violated and the write shows -/
+example : let bad : Own Nat Nat := ⟨[(7, 0)], [(0, [1, 2])], 1, [0]⟩
+    ¬ (∀ i ∈ bad.ids, i ∉ bad.caller) ∧ (bad.callerWrite 0 [9]).vals = [(7, [9])] := by decide
+
+example : (OMD.fromPairs [(0, 1), (1, 2), (0, 3)] : OMD Nat Nat).reprText "OrderedMultiDict" toString toString =
+    "OrderedMultiDict([(0, 1), (1, 2), (0, 3)])" := by decide
+
+/-- known finding C01-eq-mapping-missing, in the model: before the fix `OrderedMultiDict([(1, 0)]) == Counter({3: 0})`
+    was True (the Counter answers 0 for the key 1 it lacks); the loop after the fix says False, as the statement demands -/
+example : (OMD.fromPairs [(1, 0)] : OMD Nat Nat).eqMappingOld [(3, 0)] (some 0) = .ok true ∧
+    (OMD.fromPairs [(1, 0)] : OMD Nat Nat).eqMapping [(3, 0)] = .ok false ∧
+    ¬ (∀ k, dget k [(3, 0)] = Spec.last k (OMD.fromPairs [(1, 0)] : OMD Nat Nat).cells) :=
+  ⟨rfl, rfl, fun h => by have := h 1; simp [dget, Spec.last, Spec.valsOf, OMD.fromPairs, OMD.addAll, OMD.add, OMD.empty, isK] at this⟩
+
+/-- a history whose pairs carry key objects (here: 10 / 11 stand for two alias objects of key 1), and its projection -/
+example : (hrun (HState.init : HState Nat (Nat × Nat)) [.add 1 (10, 5), .add 2 (20, 6), .setitem 1 (11, 7), .poplast none false]).map
+      (fun r => (mapSt Prod.snd (absH r.1)).s) = [[(1, 5)], [(1, 5), (2, 6)], [(2, 6), (1, 7)], [(2, 6)]] ∧
+    (hrun (HState.init : HState Nat Nat) ([HOp.add 1 (10, 5), .add 2 (20, 6), .setitem 1 (11, 7), .poplast none false].map
+      (HOp.mapV Prod.snd))).map (fun r => r.1.s.cells) = [[(1, 5)], [(1, 5), (2, 6)], [(2, 6), (1, 7)], [(2, 6)]] := by decide
+
+/-- an injective renaming of keys (`keys_are_only_compared`) -/
+example : Function.Injective (fun k : Nat => k + 10) := fun a b h => by simpa using h
+/-- a generator paused at the second of three cells (ids 1, 2, 3): it goes on with 2, 3; after `add` it also meets the new
+    cell 4; the hypotheses `PInv` / `l.ids = A ++ c :: B` hold for that heap -/
+example : let l : PL Nat Nat := ((hrun3 HState3.init [.new (some (.pairs [(0, 0), (1, 1), (0, 2)])) []]).map (·.1.s.ll)).headD PL.empty
+    l.ids = [1] ++ 2 :: [3] ∧ l.rest 2 = [2, 3] ∧ (l.insert 5 5).rest 2 = [2, 3, 4] ∧
+    walk (unlinkP 2 (l.nxt, l.prv)).1 l.fresh 2 = [2, 3] := by decide
+
+/-- `update` with pairs as primitive storage steps: a repeated key is deleted once, at its first occurrence -/
+example : compileUpdate (OMD.fromPairs [(0, 1)] : OMD Nat Nat) (.pairs [(0, 5), (2, 6), (0, 7)]) [(3, 8)] =
+    [.delKey 0, .add 0 5, .delKey 2, .add 2 6, .add 0 7, .setitem 3 8] := rfl
+/-- `Sep o` and `o.vals = s.vals` are met, e.g., by the layer run next to the model from the empty dictionary -/
+example : Sep (ownRun (Own.empty : Own Nat Nat) [.add 0 1, .add 1 2, .add 0 3]) ∧
+    (ownRun (Own.empty : Own Nat Nat) [.add 0 1, .add 1 2, .add 0 3]).vals = (OMD.fromPairs [(0, 1), (1, 2), (0, 3)] : OMD Nat Nat).vals :=
+  ⟨own_separation_history _, by decide⟩
 
 end C01
